@@ -61,17 +61,17 @@ def variants(r, w, h):
 KINDS = ["gray8", "rgb8", "rgba8"]
 
 def skip_patterns(r, h, exhaustive):
-    """patterns over d (*it; ++it), D (*it; *it; ++it), s (++it: the row is skipped without being dereferenced), at most h letters"""
+    """patterns over d (*it; ++it), D (*it; *it; ++it), p (*it++), s (++it: the row is skipped without being dereferenced), at most h letters"""
     if exhaustive and h <= 5:
         ps = ["".join("ds"[(m >> i) & 1] for i in range(h)) for m in range(1 << h)]
     elif exhaustive is None:      # readers that seek to every row: a few patterns per file
-        return [p for p in dict.fromkeys(["s" * (h - 1) + "d", "".join("sd"[i % 2] for i in range(h)), "".join("dDs"[r.below(3)] for _ in range(h)), "s" * h]) if p]
+        return [p for p in dict.fromkeys(["s" * (h - 1) + "d", "".join("sd"[i % 2] for i in range(h)), "".join("dDsp"[r.below(4)] for _ in range(h)), "s" * h]) if p]
     else:
         ps = ["d" * h, "d", "s" * (h - 1) + "d", "s" * h, "d" + "s" * (h - 1)]
         ps += ["".join("d" if i % k == o else "s" for i in range(h)) for k in (2, 3) for o in range(k)]
         ps += ["".join("ds"[r.below(2)] for _ in range(h)) for _ in range(3)]
     n = 1 + r.below(h)
-    ps += ["".join("dDs"[r.below(3)] for _ in range(h)), "".join("dDs"[r.below(3)] for _ in range(n)), "s" * (n - 1) + "D"]
+    ps += ["".join("dDsp"[r.below(4)] for _ in range(h)), "".join("dDsp"[r.below(4)] for _ in range(n)), "s" * (n - 1) + "D", "s" * (n - 1) + "p"]
     out = []
     for p in ps:
         if p and p not in out: out.append(p)
@@ -197,8 +197,8 @@ def specs():
 def nontrivial(op):
     w = op.split()
     if w[0] == "xcrop": return w[6:10] != ["0", "0", "0", "0"]
-    if w[0] == "skips": return "s" in w[3] or "D" in w[3]
-    if w[0] == "xskips": return "s" in w[6] or "D" in w[6]
+    if w[0] == "skips": return w[3] != "d" * len(w[3])
+    if w[0] == "xskips": return w[6] != "d" * len(w[6])
     return w[0] != "crop" or w[3:7] != ["0", "0", "0", "0"]
 
 ASSUME = [
@@ -266,7 +266,7 @@ def run(ctx, ops=None):
     return vlib.finish(ctx, "proof", obligations, discharged,
         rule="files: %d variants (bmp 24/32 bottom-up, negative height, V4 header, OS/2 header, 1/4/8-bit palettes, RLE4/RLE8, 15/16-bit incl. bit fields; pnm P1..P6; targa raw/RLE x both origins x 24/32 x id field) "
              "for every w,h in 1..%d. crop: EVERY sub-rectangle of every file through file name, FILE* and std::istream, judged against the crop of the full read; paths: read_image, read_view (canary frame), any_image, "
-             "scanline reader, read_image_info; skips: the scanline iterator driven by patterns of dereference / skip steps (pnm: every d/s pattern up to height 5; every other format incl. png / tiff / jpeg: first / last / every k-th / random subsets, double dereference, std::advance over runs), every row handed out judged against that row of read_image; conv: read_and_convert_image / _view into gray8, rgb8, rgba8 against color_convert of the native read; small: read_view into a too small view. "
+             "scanline reader, read_image_info; skips: the scanline iterator driven by patterns of dereference / skip steps (pnm: every d/s pattern up to height 5; every other format incl. png / tiff / jpeg: first / last / every k-th / random subsets, double dereference, *it++, std::advance over runs), every row handed out judged against that row of read_image; conv: read_and_convert_image / _view into gray8, rgb8, rgba8 against color_convert of the native read; small: read_view into a too small view. "
              "non-trivial = every op except the default-settings read and the skips patterns that dereference every row exactly once (distinct op lines counted)" % (len(variants(vlib.SplitMix64(1), 2, 2)), hi),
         samples=samples, distinct_nontrivial=distinct, assumptions=ASSUME, trusted_base=vlib.TRUSTED_BASE,
         extra={"ops_by_kind": kinds, "ops_by_variant": tags, "known_finding_inputs": ctx.cov.get("known_finding_inputs", {}),
